@@ -11,7 +11,7 @@ import (
 )
 
 func init() {
-	register(&Prop{ID: "C07", Patterns: []string{"./smartcontract/service/evm", "./vm/evm", "./core/store/ledgerstore"}, Run: runC07})
+	register(&Prop{ID: "C07", Patterns: []string{"./smartcontract/service/evm", "./vm/evm", "./core/store/ledgerstore", "./smartcontract/storage", "./smartcontract/service/native/ong"}, Run: runC07})
 }
 
 func runC07(c *an.Ctx) {
@@ -270,6 +270,8 @@ func runC07(c *an.Ctx) {
 		}
 		c.Check(used, "same-subject|TransitionDb|UsedGas-is-gasUsed", "the reported UsedGas is gasUsed()", c.P.Rel(tdb.Pos()), "UsedGas does not derive from a gasUsed() call")
 	}
+	// (5) ONG is moved, never overwritten (seed C07c)
+	ongOverwriteRule(c)
 }
 
 // dependsOnCall: v is computed from the result of a call to fn.
